@@ -514,7 +514,7 @@ AllFamilies == {"operand-bool", "operand-str", "logic-int", "cond-nonbool", "arg
                 "name-undeclared", "name-out-of-scope", "match-drop-arm", "match-after-default",
                 "match-dup-arm", "neg-unsigned", "exit-forbidden", "assign-non-local", "redeclare",
                 "recursive-type", "recursive-const", "elem-type", "return-type", "let-type", "assign-type",
-                "fallthrough-after-loop", "match-rename-arm", "name-sibling-scope", "recursive-member"}
+                "fallthrough-after-loop", "fallthrough-after-shortcircuit", "match-rename-arm", "name-sibling-scope", "recursive-member"}
 
 (* the rule of the property statement each family breaks *)
 RuleOf(f) ==
@@ -534,7 +534,7 @@ RuleOf(f) ==
     [] f = "redeclare"            -> "redeclaring a name in the same scope"
     [] f \in {"recursive-type", "recursive-const", "recursive-member"} -> "recursive types or constants"
     [] f = "elem-type"            -> "element type"
-    [] f \in {"return-type", "fallthrough-after-loop"} -> "return type"
+    [] f \in {"return-type", "fallthrough-after-loop", "fallthrough-after-shortcircuit"} -> "return type"
     [] f \in {"let-type", "assign-type"} -> "assigned value type"
 
 (* the sites at which family f applies to program P *)
@@ -646,6 +646,11 @@ Sites(P, f) ==
          (* a function that must return a value: its final expression moved into a loop that returns it *)
          {[d |-> x, w |-> w] : x \in {y \in FnIdx(P) : P.decls[y].k = "fn" /\ P.decls[y].ret.k # "unit"
                                                  /\ P.nodes[P.decls[y].body].last # <<>>}, w \in {"while", "for"}}
+    [] f = "fallthrough-after-shortcircuit" ->
+         (* a function that must return a value: its final expression moved into the right operand of && / ||, *)
+         (* which is skipped when the left operand decides *)
+         {[d |-> x, w |-> w] : x \in {y \in FnIdx(P) : P.decls[y].k = "fn" /\ P.decls[y].ret.k # "unit"
+                                                 /\ P.nodes[P.decls[y].body].last # <<>>}, w \in {"and", "or"}}
     [] f = "let-type" ->
          {[i |-> j, w |-> "let"] : j \in {y \in NodesOf(P, {"let"}) : P.nodes[y].t # <<>>}}
          \cup {[d |-> x, w |-> "const"] : x \in ConstIdx(P)}
@@ -772,6 +777,13 @@ Break(P, f, s) ==
              Q3 == AddNode(Q2, IF s.w = "while" THEN B(FALSE) ELSE I(0))
              Q4 == IF s.w = "while" THEN AddNode(Q3, While(NewIdx(Q2), NewIdx(Q1)))
                    ELSE AddNode(AddNode(Q3, Lst(<<NewIdx(Q2)>>)), For("zz_it", NewIdx(Q3), NewIdx(Q1)))
+         IN SetNode(Q4, b, [P.nodes[b] EXCEPT !.ss = Append(@, Len(Q4.nodes)), !.last = <<>>])
+    [] f = "fallthrough-after-shortcircuit" ->
+         LET b == P.decls[s.d].body
+             Q1 == AddNode(P, Ret("return", P.nodes[b].last[1]))          \* return e
+             Q2 == AddNode(Q1, BlkU(<<NewIdx(P)>>))                       \* { return e; }
+             Q3 == AddNode(Q2, B(s.w = "and"))                            \* true && .. / false || ..
+             Q4 == AddNode(Q3, Bin(s.w, NewIdx(Q2), NewIdx(Q1)))
          IN SetNode(Q4, b, [P.nodes[b] EXCEPT !.ss = Append(@, Len(Q4.nodes)), !.last = <<>>])
     [] f = "let-type" ->
          IF s.w = "let" THEN SetNode(P, P.nodes[s.i].e, WrongLit(P.nodes[s.i].t[1]))
